@@ -516,8 +516,96 @@ fn mode_args(_args: &[String]) {
                 .collect::<Vec<_>>()
                 .join(",")
         };
+        // predictive defect model for the known findings: frozen scanner + construct flags
+        let snap = guarded(|| {
+            Punctuated::<crate::scanner_snapshot::Expr, syn::Token![,]>::parse_terminated
+                .parse2(ts.clone())
+                .map(|p| p.iter().map(|e| (flat(e.to_token_stream()), e.ident().is_some())).collect::<Vec<_>>())
+                .ok()
+        })
+        .ok()
+        .flatten();
+        let flags = {
+            use syn::visit::Visit;
+            #[derive(Default)]
+            struct F {
+                cast: bool,
+                closure_ret: bool,
+                bitor: bool,
+            }
+            impl<'ast> Visit<'ast> for F {
+                fn visit_expr_cast(&mut self, n: &'ast syn::ExprCast) {
+                    if n.ty.to_token_stream().to_string().contains('<') {
+                        self.cast = true;
+                    }
+                    syn::visit::visit_expr_cast(self, n);
+                }
+                fn visit_expr_closure(&mut self, n: &'ast syn::ExprClosure) {
+                    if let syn::ReturnType::Type(_, t) = &n.output {
+                        if t.to_token_stream().to_string().contains('<') {
+                            self.closure_ret = true;
+                        }
+                    }
+                    syn::visit::visit_expr_closure(self, n);
+                }
+                fn visit_expr_binary(&mut self, n: &'ast syn::ExprBinary) {
+                    if matches!(n.op, syn::BinOp::BitOr(_) | syn::BinOp::BitOrAssign(_)) {
+                        self.bitor = true;
+                    }
+                    syn::visit::visit_expr_binary(self, n);
+                }
+            }
+            let mut f = F::default();
+            if let Ok(p) = Punctuated::<syn::Expr, syn::Token![,]>::parse_terminated.parse2(ts.clone()) {
+                for e in p.iter() {
+                    f.visit_expr(e);
+                }
+            }
+            let mut v = Vec::new();
+            if f.cast {
+                v.push("cast-generic");
+            }
+            if f.closure_ret {
+                v.push("closure-ret-generic");
+            }
+            if f.bitor {
+                v.push("bitor");
+            }
+            v.join(",")
+        };
+        // end-to-end: the same list inside a real attribute
+        let nargs = reference.len();
+        let trailing = src.trim_end().ends_with(',');
+        let sep = if nargs == 0 || trailing { "" } else { "," };
+        let item = format!("#[display(\"{{{}:?}}\", {}{} __probe)] struct S<T> {{ __probe: T }}", nargs, src, sep);
+        let (probe, reemit) = match expand_one("Display", &item) {
+            Exp::Ok(t) => {
+                let ft = t.parse::<TokenStream>().map(flat).unwrap_or_default();
+                let want_pred = "T : derive_more : : core : : fmt : : Debug";
+                let args_flat = flat(ts.clone());
+                let args_flat = args_flat.trim_end_matches(" ,").trim_end_matches(',').to_string();
+                (
+                    if ft.contains(want_pred) { "bound" } else { "nobound" },
+                    if args_flat.is_empty() || ft.contains(&args_flat) { "verbatim" } else { "altered" },
+                )
+            }
+            Exp::Err(_) => ("err", "err"),
+            Exp::Panic(_) => ("panic", "panic"),
+            _ => ("bad", "bad"),
+        };
         let body = match got {
-            Ok(Ok(v)) => format!("\"kind\":\"ok\",\"got\":[{}],\"want\":[{}]", fmt_list(&v), fmt_list(&reference)),
+            Ok(Ok(v)) => format!(
+                "\"kind\":\"ok\",\"probe\":\"{}\",\"reemit\":\"{}\",\"flags\":\"{}\",\"snap\":{},\"got\":[{}],\"want\":[{}]",
+                probe,
+                reemit,
+                flags,
+                match &snap {
+                    Some(sv) => format!("[{}]", fmt_list(sv)),
+                    None => "null".to_string(),
+                },
+                fmt_list(&v),
+                fmt_list(&reference)
+            ),
             Ok(Err(e)) => format!("\"kind\":\"err\",\"msg\":{},\"want\":[{}]", jstr(&e), fmt_list(&reference)),
             Err(p) => panic_json(&p),
         };
